@@ -293,6 +293,6 @@ int main(int argc, char **argv)
     mc_e2_level("temp_file", 1, 64, t_case, t_desc, NULL);
     mc_e2_level("counters", 300, 301, c_case, c_desc, NULL);
     mc_e2_level("dirscan_limit", 1, 10, ds_case, ds_desc, NULL);
-    { mc_sys sys = { "lifecycle", NLOPS, l_name, l_fresh, l_enabled, l_apply, NULL, l_canon, l_teardown }; mc_e1_run(&sys, (int) mc_arg_int("depth", mc_thorough() ? 9 : 7)); }
+    { mc_sys sys = { "lifecycle", NLOPS, l_name, l_fresh, l_enabled, l_apply, NULL, l_canon, l_teardown, (int) mc_arg_int("lookahead", 1) }; mc_e1_run(&sys, (int) mc_arg_int("depth", mc_thorough() ? 9 : 7)); }
     return mc_finish();
 }
